@@ -144,3 +144,20 @@ func init() {
 	checks["C11"] = checkC11
 	replayers["C11"] = replaySemCase(&SemOpts{})
 }
+
+func checkC12(c *Ctx) {
+	o := &SemOpts{}
+	cfg := "FamObjects_quick.cfg"
+	if c.Tier == "thorough" {
+		cfg = "FamObjects_thorough.cfg"
+	}
+	c.runSemFamily("FamObjects", cfg, o, 60*time.Minute)
+	c.cov("exhaustive", true)
+	c.cov("rule", "FamObjects: every history of <= HistLen object operations on two variables (literals with 0..3 keys in several orders, alias, write of new and existing keys, delete of present and absent keys, read of present and absent properties, nesting objects and arrays, write through a parameter), each optionally followed by one misuse (non-string key, `.` on number/array/string/nil, listing a non-object, arity), plus NRandom seeded random histories; after every step both objects are printed and keys/values are listed (keys twice): any listing order is accepted but it must be stable and keys and values must agree")
+	semAssumptions(c)
+}
+
+func init() {
+	checks["C12"] = checkC12
+	replayers["C12"] = replaySemCase(&SemOpts{})
+}
